@@ -196,8 +196,9 @@ class RecordingSharedMemory(_RealSharedMemory):
 class Patched:
     """with Patched(schedule, n_workers) as ctx: helpers.parallel_add(...)"""
 
-    def __init__(self, schedule, n_workers):
+    def __init__(self, schedule, n_workers, cores=None):
         self.ctx = FakeContext(schedule, n_workers)
+        self.cores = cores
 
     def __enter__(self):
         self.saved = (helpers.get_context, helpers.sleep, cm.SharedMemory, hh.SharedMemory, hl.SharedMemory)
@@ -206,10 +207,16 @@ class Patched:
         helpers.sleep = ctx.sleep
         RecordingSharedMemory.created = []
         cm.SharedMemory = hh.SharedMemory = hl.SharedMemory = RecordingSharedMemory
+        # the machine's core count is part of the environment: pretend 1, 2 or 64 physical cores
+        self.saved_cpu = helpers.psutil.cpu_count
+        cores = self.cores
+        if cores:
+            helpers.psutil.cpu_count = lambda logical=True: cores
         return ctx
 
     def __exit__(self, *exc):
         helpers.get_context, helpers.sleep, cm.SharedMemory, hh.SharedMemory, hl.SharedMemory = self.saved
+        helpers.psutil.cpu_count = self.saved_cpu
         _QUEUES.clear()
         return False
 
